@@ -174,6 +174,8 @@ func c06b(c *Ctx) {
 							}
 						}
 						c.Check(before && loopHeaders(fn)[st.Block()] == nil, key, c.W.Pos(st.Pos()), "the table is (re)made before the first statement is parsed", "ParseProgram re-makes the hoisting table "+fld+" after statements were parsed: contents that already have a label would get a second one")
+					case pp != nil && onlyCalledBeforeLoop(c, fn, pp, top):
+						c.OK(key, c.W.Pos(st.Pos()), "the table is (re)made by a helper that ParseProgram calls before the first statement is parsed")
 					default:
 						c.Bad(key, c.W.Pos(st.Pos()), fn.Name()+" replaces the hoisting table "+fld+" ("+pretty(v)+"): identical inline content before and after would no longer share one label (and counters / lists would restart)")
 					}
@@ -1109,4 +1111,29 @@ func impPassesThrough(c *Ctx, g *ssa.Function, j int, addFn *ssa.Function) bool 
 		}
 	}
 	return n > 0
+}
+
+// onlyCalledBeforeLoop: g is called from pp only, outside loops, and no call of g is reachable
+// from a call of the statement parser top.
+func onlyCalledBeforeLoop(c *Ctx, g, pp, top *ssa.Function) bool {
+	sites := c.W.callsTo(g)
+	if len(sites) == 0 {
+		return false
+	}
+	for _, s := range sites {
+		if isTestFunc(c.W, s.Parent()) {
+			continue
+		}
+		if s.Parent() != pp || loopHeaders(pp)[s.Block()] != nil {
+			return false
+		}
+		if top != nil {
+			for _, call := range callsToIn(pp, top) {
+				if canReach(call.(ssa.Instruction), s.(ssa.Instruction)) {
+					return false
+				}
+			}
+		}
+	}
+	return true
 }
